@@ -648,6 +648,9 @@ func Rand(fn parser.Function, args []value.Primary, _ *option.Flags) (value.Prim
 		return nil, NewFunctionInvalidArgumentError(fn, fn.Name, "the second argument must be greater than the first argument")
 	}
 	delta := high - low + 1
+	if delta <= 0 {
+		return nil, NewFunctionInvalidArgumentError(fn, fn.Name, "the range between the arguments is too wide")
+	}
 	return value.NewInteger(r.Int63n(delta) + low), nil
 }
 
